@@ -456,8 +456,13 @@ def eng_paging_walks(ctx):
     sizes = [-1, 0, 1, 7, 20, 21, 1000, 1001] if not ctx.thorough else [-1, 0, 1, 2, 3, 19, 20, 21, 44, 45, 46, 1000, 1001,
                                                                           2147483647]
     cases = seeded(gen.paging_walk_cases(counts, sizes, seed=ctx.seed))
-    return ctx.seq("paging-walks", cases, relevant={"LT", "LS", "LTS", "CT", "CS", "DT", "DS"},
-                   triggers={"LT", "LS", "LTS"}, monitor=M.mon_walk)
+    out = ctx.seq("paging-walks", cases, relevant={"LT", "LS", "LTS", "CT", "CS", "DT", "DS"},
+                  triggers={"LT", "LS", "LTS"}, monitor=M.mon_walk)
+    if out:
+        return out
+    cases = seeded(gen.big_walk_cases(sizes=(1001, 2147483647) if not ctx.thorough else (1000, 1001, 5000, 10001, 2147483647)))
+    return ctx.seq("paging-big", cases, relevant={"LT", "LS", "LTS"}, triggers={"LT", "LS", "LTS"}, monitor=M.mon_walk,
+                   always_monitor=True)
 
 
 def eng_capacity(ctx):
@@ -920,7 +925,7 @@ def eng_cs(ctx):
     st["evaluations"] += len(cases)
     s = st["streams"].setdefault("concsub-polls", {"cases": 0, "ops": {}, "answers": {}})
     s["cases"] += len(cases)
-    out = []
+    hits, diffs = [], []
     for cid, ops in cases:
         a, b = impl.get(cid, ["<no result>"]), model.get(cid, ["<no result>"])
         for o in ops:
@@ -933,24 +938,27 @@ def eng_cs(ctx):
         if any(l.startswith("XQ done 0") for l in a):
             st["distinct"].add(hashlib.sha1("\n".join(ops).encode()).hexdigest())
         why = M.mon_cs(ops, a)
-        if why and len(out) < 3:
-            out.append(("violation", "concsub-polls: " + why,
-                        {"engine": "seq", "stream": "concsub-polls", "case": ops, "impl": a, "model": b, "model_free": True,
-                         "monitor_fn": "mon_cs", "readable": [decode_line(o)[:200] for o in ops],
-                         "failing_input_found": True, "monitor": why, "signature": "monitor:" + why.split(":")[0],
-                         "broken": "monitor of stream 'concsub-polls' on the implementation's own answers"}))
+        if why:
+            if len(hits) < 3:
+                hits.append(("violation", "concsub-polls: " + why,
+                             {"engine": "seq", "stream": "concsub-polls", "case": ops, "impl": a, "model": b, "model_free": True,
+                              "monitor_fn": "mon_cs", "readable": [decode_line(o)[:200] for o in ops],
+                              "failing_input_found": True, "monitor": why, "signature": "monitor:" + why.split(":")[0],
+                              "broken": "monitor of stream 'concsub-polls' on the implementation's own answers"}))
             continue
         na, nb = cs_norm(ops, a), cs_norm(ops, b)
-        if na != nb and len(out) < 3:
-            idx = next((i for i in range(min(len(na), len(nb))) if na[i] != nb[i]), min(len(na), len(nb)))
-            out.append(("correspondence", "concsub-polls: case %s: implementation and Model.ConcSub disagree at op %d" % (cid, idx),
-                        {"engine": "seq", "stream": "concsub-polls", "case": ops, "impl": a, "model": b, "model_free": True,
-                         "monitor_fn": "mon_cs", "first_disagreement": idx, "readable": [decode_line(o)[:200] for o in ops],
-                         "failing_input_found": False, "signature": "correspondence:concsub-polls",
-                         "broken": "correspondence stream 'concsub-polls' (Deltio.Model.CsDriver.cs_file over Model.ConcSub "
-                                   "vs the unary Pull handler of /repo)"}))
-        elif na == nb:
+        if na != nb:
+            if len(diffs) < 3:
+                idx = next((i for i in range(min(len(na), len(nb))) if na[i] != nb[i]), min(len(na), len(nb)))
+                diffs.append(("correspondence", "concsub-polls: case %s: implementation and Model.ConcSub disagree at op %d" % (cid, idx),
+                              {"engine": "seq", "stream": "concsub-polls", "case": ops, "impl": a, "model": b, "model_free": True,
+                               "monitor_fn": "mon_cs", "first_disagreement": idx, "readable": [decode_line(o)[:200] for o in ops],
+                               "failing_input_found": False, "signature": "correspondence:concsub-polls",
+                               "broken": "correspondence stream 'concsub-polls' (Deltio.Model.CsDriver.cs_file over Model.ConcSub "
+                                         "vs the unary Pull handler of /repo)"}))
+        else:
             st["traces"] += 1
+    out = hits or diffs       # a concrete failing input first, if the monitor found one anywhere in the stream
     if cases and len(st["samples"]) < 6:
         cid, ops = cases[0]
         st["samples"].append({"stream": "concsub-polls", "case": cid, "ops": [decode_line(o)[:120] for o in ops[:14]],
@@ -1151,7 +1159,7 @@ def eng_burst(ctx):
 
 
 
-reg("C16", [eng_abandon, eng_burst, lambda ctx: eng_racestress(ctx)],
+reg("C16", [eng_abandon, eng_burst, lambda ctx: eng_racestress(ctx), eng_cs],
     rule="abandon: the library-level future of CreateSubscription / DeleteSubscription / Publish / Pull / Acknowledge / "
          "DeleteTopic polled k times (y scheduler yields in between) and dropped, with the target actor's mailbox empty "
          "or saturated (0/16/24 pending requests); then Get/List/STATS/Publish/Pull probes, expiry, and re-creation of "
